@@ -176,10 +176,16 @@ def setup():
     return 0
 
 
+SPEC_OF = {"C01": ("Trace_EngineRel", "Trace_EngineRel_all.cfg"), "C10": ("Trace_EngineRel", "Trace_EngineRel_func.cfg"),
+           "C11": ("Trace_EngineRel", "Trace_EngineRel_func.cfg"), "C12": ("Trace_EngineRel", "Trace_EngineRel_func.cfg"),
+           "C04": ("Trace_Regex", None), "C05": ("Trace_Cfg", None), "C08": ("Trace_Numeric", None),
+           "C09": ("Trace_Count", None)}
+
+
 def replay(prop, path):
     """Re-validate a saved replay episode with the specification that rejected it."""
-    view = rel.VIEW.get(prop, "all")
-    r = core.tlc_trace("Trace_EngineRel", path, cfg=f"Trace_EngineRel_{view}.cfg", tag=f"replay-{prop}")
+    module, cfg = SPEC_OF.get(prop, ("Trace_EngineRel", "Trace_EngineRel_all.cfg"))
+    r = core.tlc_trace(module, path, cfg=cfg, tag=f"replay-{prop}")
     if r["accepted"]:
         print("replay accepted by the specification")
         return 0
